@@ -4,7 +4,7 @@ from harness.canon import hx, tx, unhx, untx
 from harness.props.addr_common import IMPL, fmt_table, kwfields, rand_priv, pub_forms, conv_kw, PRIV, PUB
 from bip_utils import Secp256k1PrivateKey, Ed25519PrivateKey, Nist256p1PrivateKey
 
-LEAN_MODULES = ["BipVerif.Props.C09", "BipVerif.Props.C09Tables"]
+LEAN_MODULES = ["BipVerif.Props.C09", "BipVerif.Props.C09Tables", "BipVerif.Props.C09Group"]
 
 
 def pre_build():
@@ -13,10 +13,104 @@ def pre_build():
     gen_consts.main()
 
 
+WEIER = {   # p, a, b, Gx, Gy, n  (SEC 2 / FIPS 186-4)
+    "secp256k1": (2**256 - 2**32 - 977, 0, 7,
+                  0x79BE667EF9DCBBAC55A06295CE870B07029BFCDB2DCE28D959F2815B16F81798, 0x483ADA7726A3C4655DA4FBFC0E1108A8FD17B448A68554199C47D08FFB10D4B8,
+                  0xFFFFFFFFFFFFFFFFFFFFFFFFFFFFFFFEBAAEDCE6AF48A03BBFD25E8CD0364141),
+    "nist256p1": (0xFFFFFFFF00000001000000000000000000000000FFFFFFFFFFFFFFFFFFFFFFFF, -3, 0x5AC635D8AA3A93E7B3EBBD55769886BC651D06B0CC53B0F63BCE3C3E27D2604B,
+                  0x6B17D1F2E12C4247F8BCE6E563A440F277037D812DEB33A0F4A13945D898C296, 0x4FE342E2FE1A7F9B8EE7EB4A7C0F9E162BCE33576B315ECECBB6406837BF51F5,
+                  0xFFFFFFFF00000000FFFFFFFFFFFFFFFFBCE6FAADA7179E84F3B9CAC2FC632551),
+}
+
+
+def _wadd(cv, P1, P2):
+    """affine addition on a short Weierstrass curve (plain integers; None is the point at infinity)"""
+    p, a = cv[0], cv[1]
+    if P1 is None:
+        return P2
+    if P2 is None:
+        return P1
+    (x1, y1), (x2, y2) = P1, P2
+    if x1 == x2 and (y1 + y2) % p == 0:
+        return None
+    lam = ((3 * x1 * x1 + a) * pow(2 * y1, -1, p) if P1 == P2 else (y2 - y1) * pow(x2 - x1, -1, p)) % p
+    x3 = (lam * lam - x1 - x2) % p
+    return x3, (lam * (x1 - x3) - y1) % p
+
+
+def _wmul(cv, k, P1):
+    R = None
+    while k:
+        if k & 1:
+            R = _wadd(cv, R, P1)
+        P1 = _wadd(cv, P1, P1)
+        k >>= 1
+    return R
+
+
+def zero_byte_keys(rng, tier):
+    """input-dependent fixed-width slips: valid public keys whose OWN encoding has zero bytes where a minimal-length integer conversion
+    would drop them. Weierstrass curves: points k·G, (k+1)·G, ... from a random k (computed here with plain integer arithmetic, not by
+    the library) whose x-coordinate or y-coordinate starts with a zero byte — about 1 key in 256 each, so never met by a handful of
+    random keys; ed25519 family: keys whose 32-byte encoding starts or ends with a zero byte. Returns curve -> [(kind, [input forms])]."""
+    from harness.core import HarnessError
+    out = {}
+    want = 2 if tier == "quick" else 8
+    for curve, cv in WEIER.items():
+        p, a, b, gx, gy, n = cv
+        G = (gx, gy)
+        k = rng.randrange(1, n - 400000)
+        pt = _wmul(cv, k, G)
+        found = {"x-leading-zero": [], "y-leading-zero": [], "x-two-leading-zeros": []}
+        for step in range(3000 if tier == "quick" else 120000):
+            x, y = pt
+            kind = "x-two-leading-zeros" if x >> 240 == 0 else "x-leading-zero" if x >> 248 == 0 else "y-leading-zero" if y >> 248 == 0 else None
+            if kind and len(found[kind]) < want:
+                if (y * y - (x * x * x + a * x + b)) % p:
+                    raise HarnessError("zero_byte_keys: point arithmetic left the curve")
+                xb, yb = x.to_bytes(32, "big"), y.to_bytes(32, "big")
+                found[kind].append((kind, [bytes([2 + (y & 1)]) + xb, b"\x04" + xb + yb]))
+                if tier == "quick" and all(len(found[t]) >= want for t in ("x-leading-zero", "y-leading-zero")):
+                    break
+            pt = _wadd(cv, pt, G)
+        out[curve] = found["x-two-leading-zeros"] + [kv for pair in zip(found["x-leading-zero"], found["y-leading-zero"]) for kv in pair] \
+            + found["x-leading-zero"][len(found["y-leading-zero"]):]
+    for curve in PRIV:
+        if curve in WEIER:
+            continue
+        lst, kinds = [], {"first-byte-zero": 0, "last-byte-zero": 0}
+        for j in range(4000 if tier == "quick" else 40000):
+            comp = pub_forms(curve, rand_priv(rng, curve))[0]
+            raw = comp[-32:]
+            kind = "first-byte-zero" if raw[0] == 0 else "last-byte-zero" if raw[-1] == 0 else None
+            if kind and kinds[kind] < want:
+                kinds[kind] += 1
+                lst.append((kind, [comp] if curve == "ed25519monero" else [comp, raw]))
+                if min(kinds.values()) >= want:
+                    break
+        out[curve] = lst
+    return out
+
+
 def gen(rng, tier):
     T = fmt_table()
     per = 6 if tier == "quick" else 120
+    zkeys = zero_byte_keys(rng, tier)
     for fmt, (curve, enc, dec, params) in T.items():
+        # input-dependent cases: keys whose own coordinates / encoding carry leading (or trailing) zero bytes, every input form, first and
+        # last parameter rows; the expected address comes from the model
+        for j, (kind, forms) in enumerate(zkeys.get(curve, [])[:4 if tier == "quick" else 40]):
+            for fi, pub in enumerate(forms):
+                kw = dict(params[0] if (j + fi) % 2 == 0 else params[-1])
+                if fmt in ("xmr", "xmrint"):
+                    kw["pub_vkey"] = hx(pub_forms(curve, rand_priv(rng, curve))[0])
+                    if fmt == "xmrint":
+                        kw["payment_id"] = hx(bytes(rng.randrange(256) for _ in range(8)))
+                yield Case("addrenc", [fmt, hx(pub)] + kwfields(kw), "enc-key-" + kind)
+                try:
+                    yield Case("addrdec", [fmt, tx(enc.EncodeKey(pub, **conv_kw(fmt, kw)))] + kwfields(kw), "dec-key-" + kind)
+                except Exception:  # noqa  (the encoder's answer is judged by the request above)
+                    pass
         for i in range(per):
             kw = dict(params[0] if i == 0 else params[-1] if i == 1 else params[rng.randrange(len(params))])   # first, last, then random rows of the parameter space
             priv = rand_priv(rng, curve)
@@ -194,6 +288,31 @@ def relations(rng, tier, rpt):
                 bad.append({"property": "C09", "entry_point": name, "request_lines": [], "relation": "second key bytes that are not a valid key are not refused with ValueError",
                             "input": junk.hex(), "impl_output": got, "model_output": "ValueError", "no_failing_input": False})
     rpt.extra["wrong_curve_checks"] = n
+    # input forms: the address is a function of the public key, not of the form it is handed over in (compressed bytes, uncompressed /
+    # raw bytes, key object) — on the keys with zero bytes in their own encoding, where a form-dependent width slip would show
+    nf = 0
+    zk = zero_byte_keys(rng, tier)
+    for fmt, (curve, enc, dec, params) in T.items():
+        for j, (kind, forms) in enumerate(zk.get(curve, [])[:3 if tier == "quick" else 24]):
+            kw = dict(params[j % len(params)])
+            if fmt in ("xmr", "xmrint"):
+                kw["pub_vkey"] = hx(pub_forms(curve, rand_priv(rng, curve))[0])
+                if fmt == "xmrint":
+                    kw["payment_id"] = hx(bytes(8))
+            ckw = conv_kw(fmt, kw)
+            views = [("bytes form %d" % i, f) for i, f in enumerate(forms)] + [("key object", PUB[curve].FromBytes(forms[0]))]
+            got = {}
+            for name, k in views:
+                try:
+                    got[name] = enc.EncodeKey(k, **ckw)
+                except Exception as ex:  # noqa
+                    got[name] = "!" + type(ex).__name__
+            nf += 1
+            if len(set(got.values())) != 1:
+                bad.append({"property": "C09", "entry_point": enc.__name__, "request_lines": [], "no_failing_input": False,
+                            "relation": "the same public key gives different addresses in different input forms (key with %s)" % kind,
+                            "input": "%s %s %s" % (fmt, forms[0].hex(), kwfields(kw)), "impl_output": str(got), "model_output": "one address"})
+    rpt.extra["input_form_checks"] = nf
     return bad[:6]
 
 
